@@ -247,6 +247,15 @@ func TestC08_Save(t *testing.T) {
 			var args []string
 			var want savedEntry
 			pipeline := rapid.IntRange(0, 2).Draw(t, "save-pipeline") == 0
+			bare := rapid.IntRange(0, 7).Draw(t, "bare-entry") == 0
+			if bare {
+				// an entry that carries next to nothing: no keywords, platforms, category or pipeline flag,
+				// and a command and / or description that is empty or blank - stored like any other
+				kws, plats, niche, pipeline = []string{}, []string{}, "", false
+				cmdStr = rapid.SampledFrom([]string{"", "", " ", "\t", "\n", "  ", cmdStr}).Draw(t, "bare-command")
+				desc = rapid.SampledFrom([]string{"", "", " ", "\n", desc}).Draw(t, "bare-description")
+				ccls, hostile = "bare", true
+			}
 			oneFieldResave := false
 			if ccls == "reused" && rapid.Bool().Draw(t, "one-field-resave") {
 				// save an existing entry again with exactly one field changed (or none)
@@ -301,6 +310,9 @@ func TestC08_Save(t *testing.T) {
 							setFlag = m.Pipeline != rapid.Bool().Draw(t, "flip-pipeline") // often the only difference
 						}
 					}
+				}
+				if bare {
+					setFlag = false
 				}
 				if setFlag {
 					args = append(args, rapid.SampledFrom([]string{"--pipeline", "--pipeline", "--pipeline=true", "--pipeline=1", "--pipeline=T"}).Draw(t, "true-spelling"))
